@@ -7,7 +7,7 @@
    PathProofs.str_path_spec (mpt_path_set on a C string). *)
 From MptV Require Import Base.Mem Base.Tactics C10.ConfigModel C10.ConfigSpec C10.PathProofs
   C10.TreeQuery C10.TreeOps C10.TreeAssign C10.StoreRefine C10.TreeView C10.ViewRefine
-  C10.ItemProofs C10.RootRefine.
+  C10.ItemProofs C10.RootRefine C10.AssignNone.
 Local Open Scope nat_scope.
 
 (* ---------------------------------------------------------------- listing *)
@@ -215,6 +215,8 @@ Definition wop_ok (o : wop) : Prop :=
   | WNode b => hpath b
   | WUnset b => hpath b
   | WList b p => hpath b /\ pwf p
+  | WAssignNone b p => hpath b /\ pwf p /\ Forall name_ok (elems p)
+  | WAssignBad b p => hpath b /\ pwf p
   end.
 
 Definition whop_of (o : wop) : whop :=
@@ -227,6 +229,8 @@ Definition whop_of (o : wop) : whop :=
   | WNode b => HTouch (elems b)
   | WUnset b => HUnsetBase (elems b)
   | WList b p => HList (elems b) (elems p)
+  | WAssignNone b p => HAssignNone (elems b) (elems p)
+  | WAssignBad b p => HAssignBad (elems b)
   end.
 
 (* what the property distinguishes: result classes as in [obs]; which node a view hands
@@ -266,7 +270,7 @@ Lemma wstep_refines g h o : R g h -> wop_ok o ->
   let '(h', sout) := wsstep h (whop_of o) (waccepted out) in
   wobs out = wobs sout /\ R g' h'.
 Proof.
-  intros HR Hok. destruct o as [c|b s sep en v|b s sep len|b p ty|b s ty|b|b|b p]; cbn [wop_ok whop_of wstep] in *.
+  intros HR Hok. destruct o as [c|b s sep en v|b s sep len|b p ty|b s ty|b|b|b p|b p|b p]; cbn [wop_ok whop_of wstep] in *.
   - (* plain call *)
     cbn [wsstep]. apply (wvt_refines g h c HR Hok).
   - (* mpt_config_set / config::set *)
@@ -316,6 +320,27 @@ Proof.
   - (* listing *)
     destruct Hok as [Hb Hw]. destruct (cfg_list_any g h b p HR Hb Hw) as (l & Hl & He).
     rewrite Hl. cbn [wlift wsstep wobs obs]. rewrite He. split; [reflexivity|assumption].
+  - (* assignment without value *)
+    destruct Hok as (Hb & Hw & Hn). destruct HR as [Hwf HRl].
+    destruct (cfg_assign_none_spec g b p Hb Hwf Hw Hn) as (g' & r & Ha & Hwf' & Hcases). rewrite Ha.
+    cbn [wlift wsstep waccepted accepted].
+    destruct Hcases as [(Hq & Hr & Hg)|(Hq & ov & Hov & Hl)].
+    + subst r g'. rewrite Hq. cbn. split; [reflexivity|]. split; assumption.
+    + destruct (elems b ++ elems p) as [|n0 q0] eqn:Eq; [congruence|].
+      destruct Hov as [[Hr Ho]|[Hr Ho]]; subst r ov; cbn [accepted].
+      * split; [reflexivity|]. split; [assumption|].
+        intros k Hk. rewrite (Hl k Hk), slook_touch. apply upd_gen_ext. apply HRl. assumption.
+      * split; [reflexivity|]. split; [assumption|].
+        intros k Hk. rewrite (Hl k Hk), slook_unset_touch by discriminate. apply upd_gen_ext. apply HRl. assumption.
+  - (* assignment of a value without text *)
+    destruct Hok as (Hb & Hw). destruct HR as [Hwf HRl].
+    destruct (cfg_assign_bad_spec g b p Hb Hwf Hw) as (g' & Ha & Hwf' & Hcases). rewrite Ha.
+    cbn [wlift wsstep waccepted accepted].
+    destruct Hcases as [(Hq & Hg)|(Hq & Hl)].
+    + subst g'. rewrite Hq. cbn. split; [reflexivity|]. split; assumption.
+    + destruct (elems b) as [|n0 q0] eqn:Eb; [congruence|].
+      split; [reflexivity|]. split; [assumption|].
+      intros k Hk. rewrite (Hl k Hk), slook_touch. apply upd_gen_ext. apply HRl. assumption.
 Qed.
 
 Lemma wrun_refines : forall ops g h, R g h -> Forall wop_ok ops ->
